@@ -16,7 +16,23 @@ ASSUMPTIONS = [
     'not for the packet-count limit and RED',
 ]
 EXTRA_MODULES = ('OnlVerif.Props.C09K',)
-TRUSTED_EXTRA = ['the kernel guarantees (G1-G3) that make `tick` admissible only at quiescence are theorems of model K (C01), assumed for the device LTS']
+TRUSTED_EXTRA = ['the kernel guarantees (G1-G3) that make `tick` admissible only at quiescence are theorems of model K (C01), assumed for the device LTS',
+                 'py2lean/elem.py + elements.py (typed AST-subset translator; hand-written field schema of Port / REDPort objects, declared effects '
+                 '`self.store.put(packet)`, `packet.perhop_time[self.element_id] = self.env.now`, `self.out.put(packet)`); the bridge theorems '
+                 'C09.port_put_generated_eq_model / port_run_generated_eq_model / red_put_generated_eq_model tie its output to the model']
+BRIDGES = ['C09.port_put_generated_eq_model', 'C09.port_run_generated_eq_model', 'C09.red_put_generated_eq_model']
+HAND_MODELLED = ['Port.run (generator control flow: get / timeout / loop; its straight-line fragments are translated)',
+                 'PortMonitor.run', 'Port.__init__ / REDPort.__init__ (initial values)']
+_PREP = {}
+
+
+def prepare(ctx):
+    """regenerate lean/OnlVerif/Generated/Port.lean from the source under $ONL_REPO (a translator failure or a bridge
+    theorem that no longer compiles is a broken obligation)"""
+    from py2lean import translate, elements
+    _PREP['translated'] = elements.TRANSLATED['Port']
+    _PREP['rewritten'] = translate.regenerate_all(only=('Port',))
+    _PREP['diff_vs_pinned'] = translate.diff_vs_pinned('Port')
 
 
 class Draws:
@@ -223,13 +239,14 @@ def oracle(c, run):
     return fails
 
 
-def drop_oracle(c, lines):
-    """the drop decision of every put, recomputed from the public figures of the observation just before it"""
+def drop_oracle(c, lines, acts=None):
+    """the drop decision of every put, recomputed from the public figures of the observation just before it (and the size
+    of the packet offered, from the action line)"""
     fails = []
     if c['mode'] == 'red':
         return fails
     prev = None
-    for l in lines:
+    for k, l in enumerate(lines):
         if l.startswith('sample '):
             l = l + ' | '
         if ' | ' not in l:
@@ -248,6 +265,12 @@ def drop_oracle(c, lines):
                     fails.append({'what': f'packet limit {c["qlimit"]}: {waiting} packets waiting, decision `{head}`', 'signature': 'port-drop-packets'})
             if c['mode'] == 'bytes' and head == 'put acc' and int(f['bs']) > c['qlimit']:
                 fails.append({'what': f'byte limit {c["qlimit"]} exceeded: occupancy {f["bs"]} after an accepted packet', 'signature': 'port-drop-bytes'})
+            if c['mode'] == 'bytes' and acts is not None and k < len(acts) and acts[k].startswith('put '):
+                offered = int(acts[k].split(' ')[3])
+                must_drop = int(prev['bs']) + offered > c['qlimit']
+                if must_drop != (head == 'put drop'):
+                    fails.append({'what': f'byte limit {c["qlimit"]}: {prev["bs"]} bytes held, packet of {offered} bytes offered, decision `{head}` '
+                                          f'(refused iff held + size > qlimit)', 'signature': 'port-drop-bytes-iff'})
         if head.startswith('sample ') and prev is not None and c.get('monitor'):
             _, tot, byt = head.split(' ')
             inc = c['monitor']['included']
@@ -414,7 +437,7 @@ def run(ctx):
             i = next((i for i in range(max(len(a), len(b or []))) if i >= len(a) or not b or i >= len(b) or a[i] != b[i]), 0)
             dis.append({'case': c, 'detail': f'line {i}: impl `{a[i] if i < len(a) else None}` model `{b[i] if b and i < len(b) else None}`',
                         'impl': a[:300], 'model': (b or [])[:300]})
-        for f in oracle(c, r) + drop_oracle(c, a) + red_oracle(c, r):
+        for f in oracle(c, r) + drop_oracle(c, a, r.acts) + red_oracle(c, r):
             f['case'] = c; f['trace'] = a[:300]
             orc.append(f)
         if len(samples) < 2 and nt:
@@ -426,5 +449,8 @@ def run(ctx):
            'samples': samples, 'traces_validated_against_impl': len(cases) - len(dis),
            'action_lines_replayed': sum(len(r.acts) for r in runs.values()), 'operation_histogram': dict(sorted(hist.items())),
            'portk_program_runs': len(kcases), 'portk_runs_with_bursts_or_drops': knt,
-           'portk_rule': 'the Port-on-kernel-model program (PortOnK.lean) run by the driver vs the real Port + source process on the real kernel: how run() ended, every out.put (id, env.now bits), final attributes, final clock'}
+           'portk_rule': 'the Port-on-kernel-model program (PortOnK.lean) run by the driver vs the real Port + source process on the real kernel: how run() ended, every out.put (id, env.now bits), final attributes, final clock',
+           'translated': _PREP.get('translated', []), 'generated_files_rewritten': _PREP.get('rewritten', []),
+           'generated_diff_vs_pinned': _PREP.get('diff_vs_pinned', []),
+           'bridge_theorems': BRIDGES, 'hand_modelled': HAND_MODELLED}
     return {'coverage': cov, 'disagreements': dis, 'oracle_failures': orc}
